@@ -419,9 +419,27 @@ func checkInfoCompleteness(p *Program, r *Result) {
 	// the literal may live in an unexported method of Reader that Info delegates to
 	infoBodies := []*ast.FuncDecl{fd}
 	for fn, d := range g.decls {
-		if d.Recv != nil && d.Body != nil && !fn.Exported() && recvTypeName(g, d) == "Reader" {
+		if d.Recv != nil && d.Body != nil && !fn.Exported() && (recvTypeName(g, d) == "Reader" || recvTypeName(g, d) == "indexedMessageIterator") {
 			infoBodies = append(infoBodies, d)
 		}
+	}
+	// ... or be replaced by field-by-field assignments to an Info value
+	for _, bd := range infoBodies {
+		ast.Inspect(bd.Body, func(n ast.Node) bool {
+			as, ok := n.(*ast.AssignStmt)
+			if !ok || len(as.Lhs) != 1 || len(as.Rhs) != 1 {
+				return true
+			}
+			sel, ok := as.Lhs[0].(*ast.SelectorExpr)
+			if !ok {
+				return true
+			}
+			if nt, _ := structOf(g.info.TypeOf(sel.X)); nt == nil || nt.Obj().Name() != "Info" {
+				return true
+			}
+			set[sel.Sel.Name] = types.ExprString(as.Rhs[0])
+			return true
+		})
 	}
 	for _, bd := range infoBodies {
 		ast.Inspect(bd.Body, func(n ast.Node) bool {
@@ -449,7 +467,7 @@ func checkInfoCompleteness(p *Program, r *Result) {
 		switch {
 		case !ok:
 			r.violated("C08.c", "mcap.Reader.Info", construct, p.pos(fd.Pos()), "field is not populated; Info would not list the file's "+f)
-		case !strings.Contains(val, "."+source[f]):
+		case !strings.Contains(val, "."+source[f]) && val != source[f]:
 			r.violated("C08.c", "mcap.Reader.Info", construct, p.pos(fd.Pos()), "field is populated from "+val+", expected the summary table "+source[f])
 		default:
 			r.held("C08.c", "mcap.Reader.Info", construct, p.pos(fd.Pos()), "= "+val)
@@ -461,7 +479,36 @@ func checkInfoCompleteness(p *Program, r *Result) {
 		return
 	}
 	arms := map[string]*ast.CaseClause{}
-	ast.Inspect(ps.Body, func(n ast.Node) bool {
+	// the token switch may live in an unexported helper of the summary pass (addSummaryRecord, ...); an arm may store
+	// through a helper method of the iterator
+	armBodies := []*ast.FuncDecl{ps}
+	{
+		seenD := map[*ast.FuncDecl]bool{ps: true}
+		frontier := []*ast.FuncDecl{ps}
+		for depth := 0; depth < 2 && len(frontier) > 0; depth++ {
+			var next []*ast.FuncDecl
+			for _, d := range frontier {
+				ast.Inspect(d.Body, func(n ast.Node) bool {
+					if ce, ok := n.(*ast.CallExpr); ok {
+						if fn := g.calleeOf(ce); fn != nil && !fn.Exported() {
+							if hd := g.decls[fn]; hd != nil && hd.Body != nil && hd.Recv != nil && !seenD[hd] {
+								seenD[hd] = true
+								next = append(next, hd)
+								armBodies = append(armBodies, hd)
+							}
+						}
+					}
+					return true
+				})
+			}
+			frontier = next
+		}
+	}
+	armScope := &ast.BlockStmt{}
+	for _, d := range armBodies {
+		armScope.List = append(armScope.List, d.Body)
+	}
+	ast.Inspect(armScope, func(n ast.Node) bool {
 		if cc, ok := n.(*ast.CaseClause); ok {
 			for _, e := range cc.List {
 				arms[strings.TrimPrefix(types.ExprString(e), "mcap.")] = cc
